@@ -171,16 +171,6 @@ func (p *Program) Run(entry string, opt Options) *Result {
 				}
 				mu.Unlock()
 
-				if os.Getenv("GOSYM_FRESH_SOLVER") != "" && solver.Queries > 0 {
-					// fresh solver process per path: cvc5's incremental string solving degrades
-					// over thousands of push/pop rounds
-					ns, err := NewSolver("cvc5", opt.TlimitMs, opt.KeepLog)
-					if err == nil {
-						ns.Queries, ns.NSat, ns.NUnsat, ns.NUnknown, ns.Seconds, ns.Errors = solver.Queries, solver.NSat, solver.NUnsat, solver.NUnknown, solver.Seconds, solver.Errors
-						solver.Close()
-						solver = ns
-					}
-				}
 				ex := NewExec(p, solver, prefix)
 				if opt.Unwind > 0 {
 					ex.Unwind = opt.Unwind
@@ -305,10 +295,9 @@ func decString(d []int) string {
 
 // runPath executes one path; returns an outcome string and violations found.
 func (p *Program) runPath(ex *Exec, entry *ssa.Function) (outcome string, viol []Violation) {
-	ex.S.Push()
 	defer func() {
 		r := recover()
-		// unwind solver scopes back to the base level
+		// a panic inside a query may have left a temporary scope open
 		for len(ex.S.scopes) > 0 {
 			ex.S.Pop()
 		}
@@ -346,7 +335,7 @@ func (ex *Exec) model(extra ...*Term) map[string]string {
 	if len(ex.Inputs) == 0 {
 		return map[string]string{}
 	}
-	r, m := ex.S.CheckSat(extra, ex.Inputs)
+	r, m := ex.Check(extra, ex.Inputs)
 	out := map[string]string{}
 	if r != Sat {
 		out["_status"] = r.String()
@@ -365,7 +354,7 @@ func (ex *Exec) CheckAssert(cond *Term, label string) {
 		return
 	}
 	neg := Not(cond)
-	r, m := ex.S.CheckSat([]*Term{neg}, ex.Inputs)
+	r, m := ex.Check([]*Term{neg}, ex.Inputs)
 	switch r {
 	case Unsat:
 		ex.Asserts = append(ex.Asserts, AssertResult{Label: label, Holds: true, Result: Unsat})
@@ -381,12 +370,12 @@ func (ex *Exec) CheckAssert(cond *Term, label string) {
 		if len(excl) > 0 {
 			for _, k := range ex.known {
 				if ActiveKnown[k.id] {
-					if rk, _ := ex.S.CheckSat([]*Term{neg, k.cond}, nil); rk == Sat {
+					if rk, _ := ex.Check([]*Term{neg, k.cond}, nil); rk == Sat {
 						ex.KnownHits = appendUniq(ex.KnownHits, k.id)
 					}
 				}
 			}
-			r2, m2 := ex.S.CheckSat(append([]*Term{neg}, excl...), ex.Inputs)
+			r2, m2 := ex.Check(append([]*Term{neg}, excl...), ex.Inputs)
 			if r2 == Unsat {
 				ex.Asserts = append(ex.Asserts, AssertResult{Label: label, Holds: true, Result: Unsat})
 				ex.Assume(cond)
